@@ -537,6 +537,7 @@ func verifH_NewStream() {
 		verifDrain()
 		// the peer never saw a new_stream for it: nothing else may be emitted for that id
 		verifAssert(len(car.sent) == 0, "C03+C08+C13.no-frame-for-an-rpc-that-never-started")
+		verifAssert(verifLiveGoroutines() == 0, "C14.failed-start-leaves-no-goroutine")
 		return
 	}
 	verifCover("started")
